@@ -89,6 +89,45 @@ def gen_trees(depth, leaves):
     return out
 
 
+def rejection_cases():
+    """(text, expected failure classes): assignments the front end must refuse (hand-written + systematic)."""
+    from tensora.expression._exceptions import InconsistentDimensionsError, MutatingAssignmentError, NameConflictError
+
+    # rejected assignments
+    rejects = [("a(i) = a(i) + b(i)", MutatingAssignmentError), ("a(i) = b(i) + b(i,j)", InconsistentDimensionsError), ("a(i) = b(i) * i(j)", NameConflictError),
+               ("a(i) = b(a)", NameConflictError), ("b(i) = c(i) * (d(i) + b(j))", MutatingAssignmentError), ("a(i,j) = b(i) + c(j) * b()", InconsistentDimensionsError)]
+    # systematically: put a tensor name into every index slot, re-use the target at every operand
+    # position, change the arity of every later reference of a repeated tensor
+    bases = ["y(i) = B(i,j) * B(j,k) * x(k)", "y(i) = A(i,j) * x(j) + A(j,i) * z(j)", "a(i,j) = b(i) * c(j) + d(i,j) * b(j)", "o() = p(i) * q(i) * p(i)", "a(i) = s() * b(i) + s() * c(i)", "a(i,j) = t() + B(i,j) * t() + B(j,i)",
+             "o(i) = p(i) * p(i) * p(i)", "a(i) = B(i,j) * B(j,k) * B(k,i) + c(i)", "a(i) = b(i) + b(i) * c(i) - b(i)", "a(i) = b(i) * (b(i) + b(i)) * d(i)"]
+    import re as _re
+
+    for base in bases:
+        lhs, rhs = base.split(" = ")
+        names = sorted(set(_re.findall(r"([A-Za-z]\w*)\(", base)))
+        refs = list(_re.finditer(r"([A-Za-z]\w*)\(([^)]*)\)", base))
+        for m in refs:
+            idxs = [x.strip() for x in m.group(2).split(",")] if m.group(2).strip() else []
+            for k in range(len(idxs)):
+                for nm in names:
+                    new = idxs[:k] + [nm] + idxs[k + 1:]
+                    text = base[: m.start(2)] + ",".join(new) + base[m.end(2):]
+                    rejects.append((text, (NameConflictError, MutatingAssignmentError, InconsistentDimensionsError)))
+            if m.start() > len(lhs):
+                # this right-hand-side reference becomes the target tensor
+                tname = _re.match(r"\w+", lhs).group(0)
+                text = base[: m.start(1)] + tname + base[m.end(1):]
+                rejects.append((text, (MutatingAssignmentError, InconsistentDimensionsError, NameConflictError)))
+                if sum(1 for r in refs if r.group(1) == m.group(1) and r.start() > len(lhs)) > 1:
+                    # one reference of a repeated tensor gets a different number of indexes
+                    text = base[: m.start(2)] + ",".join(idxs + ["w"]) + base[m.end(2):]
+                    rejects.append((text, (InconsistentDimensionsError,)))
+                    if idxs:
+                        text = base[: m.start(2)] + ",".join(idxs[:-1]) + base[m.end(2):]
+                        rejects.append((text, (InconsistentDimensionsError,)))
+    return rejects
+
+
 def kind_c(report, tier, seed):
     from parsita import ParseError
     from returns.result import Failure, Success
@@ -143,36 +182,7 @@ def kind_c(report, tier, seed):
         if not isinstance(t, (sugar.Tensor, sugar.Integer, sugar.Float)):
             nontrivial += 1
     # (3) rejected assignments
-    rejects = [("a(i) = a(i) + b(i)", MutatingAssignmentError), ("a(i) = b(i) + b(i,j)", InconsistentDimensionsError), ("a(i) = b(i) * i(j)", NameConflictError),
-               ("a(i) = b(a)", NameConflictError), ("b(i) = c(i) * (d(i) + b(j))", MutatingAssignmentError), ("a(i,j) = b(i) + c(j) * b()", InconsistentDimensionsError)]
-    # systematically: put a tensor name into every index slot, re-use the target at every operand
-    # position, change the arity of every later reference of a repeated tensor
-    bases = ["y(i) = B(i,j) * B(j,k) * x(k)", "y(i) = A(i,j) * x(j) + A(j,i) * z(j)", "a(i,j) = b(i) * c(j) + d(i,j) * b(j)", "o() = p(i) * q(i) * p(i)", "a(i) = s() * b(i) + s() * c(i)", "a(i,j) = t() + B(i,j) * t() + B(j,i)"]
-    import re as _re
-
-    for base in bases:
-        lhs, rhs = base.split(" = ")
-        names = sorted(set(_re.findall(r"([A-Za-z]\w*)\(", base)))
-        refs = list(_re.finditer(r"([A-Za-z]\w*)\(([^)]*)\)", base))
-        for m in refs:
-            idxs = [x.strip() for x in m.group(2).split(",")] if m.group(2).strip() else []
-            for k in range(len(idxs)):
-                for nm in names:
-                    new = idxs[:k] + [nm] + idxs[k + 1:]
-                    text = base[: m.start(2)] + ",".join(new) + base[m.end(2):]
-                    rejects.append((text, (NameConflictError, MutatingAssignmentError, InconsistentDimensionsError)))
-            if m.start() > len(lhs):
-                # this right-hand-side reference becomes the target tensor
-                tname = _re.match(r"\w+", lhs).group(0)
-                text = base[: m.start(1)] + tname + base[m.end(1):]
-                rejects.append((text, (MutatingAssignmentError, InconsistentDimensionsError, NameConflictError)))
-                if sum(1 for r in refs if r.group(1) == m.group(1) and r.start() > len(lhs)) > 1:
-                    # one reference of a repeated tensor gets a different number of indexes
-                    text = base[: m.start(2)] + ",".join(idxs + ["w"]) + base[m.end(2):]
-                    rejects.append((text, (InconsistentDimensionsError,)))
-                    if idxs:
-                        text = base[: m.start(2)] + ",".join(idxs[:-1]) + base[m.end(2):]
-                        rejects.append((text, (InconsistentDimensionsError,)))
+    rejects = rejection_cases()
     for text, exc in rejects:
         evals += 1
         try:
